@@ -22,7 +22,7 @@ CMD = Family(
     {"quick": 4, "thorough": 5},
     wraps=[(b"", b""), (b"x ", b""), (b"(", b""), (b"", b") c")],
 )
-STREAM_FAMS = ["shell", "pwsh", "mix"]
+STREAM_FAMS = ["shell", "pwsh", "mix", "pairs"]
 
 
 def describe(tier):
@@ -57,7 +57,7 @@ def plan(tier, seed):
     units += [("ps-plain", tier)] + [("ps-far", tier, i) for i in range(8)]
     units += [("ps-multi", tier, i) for i in range(len(MULTI_INV))]
     units += [("stream", u) for u in streams.plan(tier, fams=STREAM_FAMS)]
-    units += core.interp_axis([("ps-plain", tier), ("ps-multi", tier, 0), ("ps-multi", tier, 1), ("ps-far", tier, 0)])
+    units += core.interp_axis([("ps-plain", tier), ("ps-multi", tier, 0), ("ps-multi", tier, 1), ("ps-far", tier, 0), ("ps-enc", tier, 1)] + [("cmd", tier, u[2]) for u in CMD.units(tier)[:4]] + [("carets", tier, u[2]) for u in CARETS.units(tier)[:2]])
     return units
 
 
